@@ -3,7 +3,7 @@ CONSTANTS
   Vals = {0, 1, 2}
   Elems = {1, 2, 3}
   NInputs = 3
-  NSorted = 3
-  MaxSlot = 3
+  NSorted = 4
+  MaxSlot = 4
 INVARIANTS Converged ObsOK
 PROPERTIES Sticky
